@@ -459,6 +459,10 @@ pub struct LeaderState<T: TypeConfig> {
     /// Drained by `handle_apply_completed`; cleared with error on step-down / fatal error.
     pub(super) pending_write_apply:
         HashMap<u64, MaybeCloneOneshotSender<std::result::Result<ClientResponse, Status>>>,
+    /// Request deadlines of the entries in `pending_write_apply` (deadline, log index), in
+    /// insertion order. A write that is committed but whose apply does not complete in time is
+    /// answered with deadline_exceeded at the next tick, like every other pending request.
+    pub(super) pending_write_apply_deadlines: VecDeque<(Instant, u64)>,
 
     /// Pending linearizable reads waiting for SM to apply up to read_index.
     /// Key: read_index (SM must reach this index before reads can be served)
@@ -785,6 +789,22 @@ impl<T: TypeConfig> RaftRoleState for LeaderState<T> {
                 true
             }
         });
+
+        // 3b. Writes that are committed but still waiting for the state machine: the client's
+        // deadline keeps running while the apply is slow or stuck.
+        while let Some((deadline, idx)) = self.pending_write_apply_deadlines.front().copied() {
+            if !self.pending_write_apply.contains_key(&idx) {
+                // already answered by the ApplyCompleted handler
+                self.pending_write_apply_deadlines.pop_front();
+            } else if now >= deadline {
+                self.pending_write_apply_deadlines.pop_front();
+                if let Some(sender) = self.pending_write_apply.remove(&idx) {
+                    let _ = sender.send(Err(Status::deadline_exceeded("write request timeout")));
+                }
+            } else {
+                break;
+            }
+        }
 
         // 4. Drain expired pending linearizable reads.
         self.pending_reads.retain(|_, batch| {
@@ -2402,8 +2422,8 @@ impl<T: TypeConfig> LeaderState<T> {
         };
         let committed = std::mem::replace(&mut self.pending_client_writes, remaining);
         for (_, meta) in committed {
-            let (start_idx, senders, wait_for_apply) =
-                (meta.start_idx, meta.senders, meta.wait_for_apply);
+            let (start_idx, senders, wait_for_apply, deadline) =
+                (meta.start_idx, meta.senders, meta.wait_for_apply, meta.deadline);
             if wait_for_apply {
                 for (i, sender) in senders.into_iter().enumerate() {
                     let idx = start_idx + i as u64;
@@ -2412,6 +2432,7 @@ impl<T: TypeConfig> LeaderState<T> {
                         metrics::histogram!("raft.write.propose_to_commit_ms").record(ms as f64);
                     }
                     self.pending_write_apply.insert(idx, sender);
+                    self.pending_write_apply_deadlines.push_back((deadline, idx));
                 }
             } else {
                 for sender in senders {
@@ -3361,6 +3382,7 @@ impl<T: TypeConfig> LeaderState<T> {
             lease_read_queue: VecDeque::new(),
             eventual_read_queue: VecDeque::new(),
             pending_write_apply: HashMap::new(),
+            pending_write_apply_deadlines: VecDeque::new(),
             pending_reads: BTreeMap::new(),
             pending_lease_reads: VecDeque::new(),
             replication_workers: HashMap::new(),
@@ -4182,6 +4204,7 @@ impl<T: TypeConfig> From<&CandidateState<T>> for LeaderState<T> {
             lease_read_queue: VecDeque::new(),
             eventual_read_queue: VecDeque::new(),
             pending_write_apply: HashMap::new(),
+            pending_write_apply_deadlines: VecDeque::new(),
             pending_reads: BTreeMap::new(),
             pending_lease_reads: VecDeque::new(),
             replication_workers: HashMap::new(),
